@@ -9,8 +9,9 @@ repo.normalise = False
 out = {}
 for m in repo.all_modules():
     t = alpha.record(m)
-    if t:
-        out[m.name] = t
+    import hashlib
+    t["__digest__"] = hashlib.sha1(m.src.encode("utf-8")).hexdigest()
+    out[m.name] = t
 os.makedirs("/verif/pinned", exist_ok=True)
 json.dump(out, open("/verif/pinned/locals.json", "w"), sort_keys=True, separators=(",", ":"))
 print(len(out), "modules", sum(len(v) for v in out.values()), "functions", os.path.getsize("/verif/pinned/locals.json"), "bytes")
